@@ -63,7 +63,18 @@ package server
 //@   ensures @one_success_restores ok ==> step(s, ok, n) == n
 //@
 //@ func (*Server).serveSign
-//@   property C06
+//@   property C06 C04
+//@   requires keysWellFormed(s.Config)
+//@   ghost resolvedKC *config.KeyConfig = nil
+//@   ghost resolvedOK bool = false
+//@   ghost allowed bool = false
+//@   ghost refused bool = false
+//@   on call (*config.Config).GetKey(c, n) ret (kc, e): resolvedKC = kc; resolvedOK = (e == nil && n == keyName && c == s.Config); refused = refused || e != nil
+//@   on call invoke authmodel.UserInfo.Allowed(u, kc) ret (a): allowed = (a && resolvedOK && kc == resolvedKC && u == userInfo); refused = refused || !a
+//@   before call signinit.Init(_, _, tok, n, _, _): assert @key_used_only_when_authorised allowed && n == keyName && tok == s.tokens[resolvedKC.Token]
+//@   before call dynamic .Sign(_, _, _): assert @signing_only_when_authorised allowed
+//@   ensures @unauthorised_is_refused_with_403 refused ==> ret0 == iface(httperror.ErrForbidden)
+//@   ensures @success_only_when_authorised ret0 == nil ==> allowed
 //@   ghost signedOK bool = false
 //@   ghost signAudit *audit.Info = nil
 //@   ghost signedBlob []byte = nil
@@ -75,3 +86,32 @@ package server
 //@   before call invoke net/http.ResponseWriter.Write(_, b): assert @response_is_the_signed_blob sameslice(b, signedBlob)
 //@   ensures @exactly_one_audit_record ret0 == nil ==> pubCount == 1 && published
 //@   ensures @no_record_without_signature pubCount >= 1 ==> signedOK
+//@
+//@ func (*Server).serveGetKey
+//@   property C04
+//@   requires keysWellFormed(s.Config)
+//@   ghost resolvedKC *config.KeyConfig = nil
+//@   ghost resolvedOK bool = false
+//@   ghost allowed bool = false
+//@   on call (*config.Config).GetKey(c, n) ret (kc, e): resolvedKC = kc; resolvedOK = (e == nil && n == keyName && c == s.Config)
+//@   on call invoke authmodel.UserInfo.Allowed(u, kc) ret (a): allowed = (a && resolvedOK && kc == resolvedKC && u == userInfo)
+//@   before call (*Server).getKeyInfo(_, _, kc): assert @certificate_disclosed_only_when_authorised allowed && kc == resolvedKC
+//@   ensures @unauthorised_is_refused_with_403 !allowed ==> ret0 == iface(httperror.ErrForbidden)
+//@
+//@ func (*Server).getKeyInfo
+//@   property C04
+//@   before call signinit.InitKey(_, tok, n): assert @token_and_key_of_the_authorised_configuration tok == s.tokens[keyConf.Token]
+//@
+//@ func (*Server).Handler
+//@   property C04
+//@   ghost mw func(http.Handler) http.Handler = nil
+//@   ghost mwIsAuth bool = false
+//@   ghost authRouter chi.Router = nil
+//@   ghost authRouterOK bool = false
+//@   on call authmodel.Middleware(a) ret (m): mw = m; mwIsAuth = (a == s.auth)
+//@   on call (*github.com/go-chi/chi/v5.Mux).With(_, ms) ret (r): authRouter = r; authRouterOK = (len(ms) == 1 && ms[0] == mw && mwIsAuth)
+//@   before call (*github.com/go-chi/chi/v5.Mux).Get(_, p, _): assert @only_public_routes_bypass_authentication p == "/health" || p == "/directory"
+//@   before call (*github.com/go-chi/chi/v5.Mux).Post(_, p, _): assert @no_unauthenticated_post false
+//@   before call (*github.com/go-chi/chi/v5.Mux).Handle(_, p, _): assert @no_unauthenticated_handle false
+//@   before call invoke github.com/go-chi/chi/v5.Router.Get(r, _, _): assert @authenticated_routes_carry_the_middleware r == authRouter && authRouterOK
+//@   before call invoke github.com/go-chi/chi/v5.Router.Post(r, _, _): assert @authenticated_post_carries_the_middleware r == authRouter && authRouterOK
